@@ -105,7 +105,7 @@ type decodeStream struct{ mode string } // mode: "valid" (C01) or "hostile" (C02
 func (s decodeStream) Name() string { return "decode-" + s.mode }
 func (s decodeStream) Rule() string {
 	if s.mode == "valid" {
-		return "typed requests of the seven operations (edge-biased ids, binary strings incl. >127/>65535 bytes, 0..3 attrs/changes/values, 0..4 controls of all nine kinds in random order, grammar-generated filters) encoded by the harness's own RFC 4511 encoder, with wire-form variations; expectation computed from the typed request; non-trivial = decoded ok, distinct by frame bytes"
+		return "typed requests of the seven operations (edge-biased ids, binary strings incl. >127/>65535 bytes, 0..3 attrs/changes/values, 0..4 controls of all nine kinds in random order, grammar-generated filters; one case in ten is a request gldap must refuse: compare, modifyDN, abandon, unassigned or response application tags, or a bind with version != 3) encoded by the harness's own RFC 4511 encoder, with wire-form variations; expectation computed from the typed request; non-trivial = decoded ok, distinct by frame bytes"
 	}
 	return "single/double structured mutations of canonical requests (node kind replacement, child delete/duplicate/swap, list truncate/extend, class/tag/constructed flips, content damage, length-octet corruption) plus random byte streams; non-trivial = frame parses as BER (reaches gldap's own decoder), distinct by frame bytes"
 }
@@ -130,6 +130,33 @@ func decodeCase(frame []byte, expect, kind string) Case {
 func (s decodeStream) Generate(rng *rand.Rand, n int, thorough bool) []Case {
 	var cs []Case
 	for len(cs) < n {
+		if s.mode == "valid" && rng.Intn(10) == 0 {
+			// an operation gldap does not support, or a bind whose version is not 3: never a handler's business
+			id := Int(2, genID(rng))
+			var frame []byte
+			if rng.Intn(3) == 0 {
+				v := []int64{0, 1, 2, 4, 127, 128, 255, -1}[rng.Intn(8)]
+				frame = Seq(id, C(1, 0, Int(2, v), Oct(genStr(rng)), P(2, 0, []byte(genStr(rng))))).Ser()
+			} else {
+				tag := []int{14, 12, 16, 5, 9, 11, 13, 15, 17, 19, 24, 25, 30, 1, 4, 7}[rng.Intn(16)]
+				var op *N
+				switch {
+				case tag == 16:
+					op = P(1, 16, encInt(int64(rng.Intn(1000))))
+				case tag == 14:
+					op = C(1, 14, Oct(genStr(rng)), Seq(Oct(genName(rng)), Oct(genStr(rng))))
+				case tag == 12:
+					op = C(1, 12, Oct(genStr(rng)), Oct(genStr(rng)), Bool(rng.Intn(2) == 0))
+				case rng.Intn(2) == 0:
+					op = C(1, tag, Oct(genStr(rng)), Seq())
+				default:
+					op = C(1, tag, P(2, 0, []byte("1.3.6.1.4.1.4203.1.11.3")))
+				}
+				frame = Seq(id, op).Ser()
+			}
+			cs = append(cs, decodeCase(frame, "err", "unsupported"))
+			continue
+		}
 		if s.mode == "valid" {
 			req := genReq(rng)
 			root, err := req.Node()
@@ -185,6 +212,9 @@ func (s decodeStream) Oracle(c Case, impl string) (bool, string, string) {
 	}
 	if impl == c.Expect {
 		return true, "", ""
+	}
+	if c.Kind == "unsupported" {
+		return false, "an unsupported operation or a bind with version != 3 is delivered: " + impl, "unsupported/delivered"
 	}
 	if c.Kind == "modify" {
 		if ok, what := modifyMatches(c.Expect, impl); ok {
